@@ -138,6 +138,27 @@ def nested(depth):
     return [a, b, c, d, e, f, g, h]
 
 
+def flat(width):
+    """wide, unnested constructs: one flat chain of `width` operands per binary operator (literals, variables, mixed numeric types,
+    strings), argument / element / parameter lists, call and member chains - analysis time must stay proportional to the width"""
+    out = []
+    head = "function main() -> void { int a = 1; int b = 2; long w = 3L; float f = 1.5f; string s = \"s\"; bit t = 1b; boolean y = true; "
+    for op in ("+", "-", "*", "/", "%", "&", "|", "^", "&&", "||", "==", "<"):
+        for operands in (["1"], ["a", "b"], ["a", "w", "f"], ["t"], ["y"], ["s", "a"], ["a", "s"]):
+            chain = (" %s " % op).join(operands[i % len(operands)] for i in range(width))
+            out.append(head + "echo(%s); }\n" % chain)
+            out.append(head + "int r = %s; }\n" % chain)
+    args = ", ".join(str(i) for i in range(width))
+    pars = ", ".join("int p%d" % i for i in range(width))
+    out.append("function g(%s) -> int { return p0; }\nfunction main() -> void { echo(g(%s)); }\n" % (pars, args))
+    out.append("function main() -> void { int[] xs = {%s}; echo(xs[0]); }\n" % args)
+    out.append("class N { public N next; public int v = 1; public constructor() -> N = default; public function me() -> N { return this; } }\n"
+               "function main() -> void { N n = new N(); echo(n%s.v); echo(n%s.v); }\n" % (".next" * width, ".me()" * width))
+    out.append("function main() -> void { %s echo(v0); }\n" % " ".join("int v%d = %d;" % (i, i) for i in range(width)))
+    out.append("function main() -> void { int x = 0; %s echo(x); }\n" % " ".join("x = x + %d;" % i for i in range(width)))
+    return out
+
+
 def run(tier, seed):
     t0 = time.time()
     out = vlib.Outcome(PID)
@@ -175,6 +196,9 @@ def run(tier, seed):
     for d in (1, 2, 8, 32, 64):
         for s in nested(d):
             inputs.append(("nested", s))
+    for wd in (2, 9, 40, 96):
+        for s in flat(wd):
+            inputs.append(("flat", s))
     # constant expressions the analyser folds itself (array sizes, final initialisers) at the edge values
     EDGE = ["0", "1", "2", "-1", "-2", "2147483647", "-2147483647", "(-2147483647 - 1)", "65536", "-65536"]
     for a in EDGE:
